@@ -309,10 +309,17 @@ func BuildCte(query *Query, expr *sqlparser.With) error {
 	if expr == nil {
 		return nil
 	}
+	// the CTE entries go into a copy of the document's top level, not into the caller's map
+	data := make(Map, len(query.data)+len(expr.CTEs))
+	for key, value := range query.data {
+		data[key] = value
+	}
+	query.data = data
 	for _, cte := range expr.CTEs {
 		copy := *cte
-		query.data[copy.ID.String()] = CteEvaluation(func() (any, error) {
-			query, err := Prepare(query.data, copy.Subquery, query.options)
+		id := copy.ID.String()
+		data[id] = CteEvaluation(func() (any, error) {
+			query, err := Prepare(data, copy.Subquery, query.options)
 			if err != nil {
 				return nil, err
 			}
@@ -320,7 +327,7 @@ func BuildCte(query *Query, expr *sqlparser.With) error {
 			if err != nil {
 				return nil, err
 			}
-			query.data[copy.ID.String()] = rs
+			data[id] = rs
 			return rs, nil
 		})
 	}
